@@ -445,6 +445,21 @@ func gen(c *harness.C) []harness.Case {
 			cases = append(cases, blsCase(k.n, k.t))
 		}
 	}
+	if haveBLS {
+		// committees whose identifiers are not 1..n in ascending order
+		idsets := [][]uint16{{5, 7, 9}, {11, 4, 6}, {2, 1, 3}}
+		if c.Thorough() {
+			idsets = append(idsets, []uint16{65535, 256, 255}, []uint16{3, 1, 2}, []uint16{40, 10, 30, 20})
+		}
+		for _, ids := range idsets {
+			for t := 2; t <= len(ids); t++ {
+				if !c.Thorough() && t != 2 {
+					continue
+				}
+				cases = append(cases, blsCaseIDs(len(ids), t, ids))
+			}
+		}
+	}
 	for _, k := range psC {
 		cases = append(cases, psCase(k[0], k[1], k[2]))
 	}
